@@ -51,8 +51,8 @@ claim("C07",
       "alignment centres (count v/7+2, first 6, last 4v+10, even equal steps) and the encoder's padded copy of them; all 32 format words and 34 version words equal the BCH remainder with "
       "generator 0x537 / 0x1f25 (mask 0x5412); the encoder's block-size arithmetic reproduces every table row. Function contracts: the eight decoder mask predicates and "
       "MaskUtil_getDataMaskBit are proved equal to the ISO mask formulas; calculateBCHCode is proved to be the GF(2) remainder (the same spec function as the table lemmas) and makeTypeInfoBits / makeVersionInfoBits to emit "
-      "exactly (level, mask).BCH xor 101010000010010 and version.BCH, most significant bit first; getNumDataBytesAndNumECBytesForBlockID is proved against its arithmetic specification. "
-      "Not decided: EC block counts against the standard's table entry by entry (no independent copy; the structural invariants pin every entry up to compensating errors), "
+      "exactly (level, mask).BCH xor 101010000010010 and version.BCH, most significant bit first; getNumDataBytesAndNumECBytesForBlockID is proved against its arithmetic specification; embedDataBits is proved (call-site assertion on every module write) to write into each module it fills either the data bit just consumed or, once the data is used up, a remainder bit 0, in both cases XORed with the ISO mask condition of that module (remainder bits are masked too). "
+      "Not decided: the zigzag order in which embedDataBits visits modules; EC block counts against the standard's table entry by entry (no independent copy; the structural invariants pin every entry up to compensating errors), "
       "function-pattern embedding (embedBasicPatterns, embedTypeInfo coordinates), and matrix_lib == matrix_ref for whole symbols.",
       "tables dumped from the compiled package on every run; products of symbolic integers uninterpreted in function VCs (mask 5-7 claims are conditional on i*j >= 0).")
 claim("C01",
@@ -65,7 +65,7 @@ claim("C01",
       "(6) terminateBits (thorough tier): at most four terminator zeros, zero padding to the byte boundary, then the pad codewords 11101100/00010001 alternately up to exactly 8*numDataBytes bits, the data prefix unchanged, an error exactly when the data does not fit; "
       "(7) generateECBytes hands the QR-field Reed-Solomon encoder exactly the block's data bytes and returns the parity the encoder wrote behind them (composed with the C04 Encode contract: data unchanged, parity symbols are field elements); "
       "(8) mode table: the mode indicators and the character-count widths of the three version classes equal the standard (lemma modeTable), Mode.GetCharacterCountBits selects the class by the boundaries 9|10 and 26|27, ModeForBits maps exactly the defined indicators; (9) version choice (C13), format/version bits of the encoder (C07) and format/version word tolerance of the decoder (C05). "
-      "Not decided: decodeNumericSegment/decodeAlphanumericSegment/decodeByteSegment against the stream, interleaveWithECBytes <-> DataBlock_GetDataBlocks, embedDataBits <-> ReadCodewords, extractPureBits/moduleSize, ECI handling, the end-to-end round trip.",
+      "Not decided: decodeNumericSegment/decodeAlphanumericSegment/decodeByteSegment against the stream, interleaveWithECBytes <-> DataBlock_GetDataBlocks, the visiting order of embedDataBits <-> ReadCodewords (that each written module is data-or-remainder bit XOR mask is proved, C07), extractPureBits/moduleSize, ECI handling, the end-to-end round trip.",
       "Encoder_encode is checked for its call-site assertion only (its postconditions stay a trusted summary); x/text encoders are stubs (arbitrary bytes, length <= 4*len+64); hint maps unmodelled; appendKanjiBytes/decodeKanjiSegment in 64-bit vectors, the other segment functions over mathematical integers.")
 claim("C15",
       "Narrow claim on the ECI and Kanji plumbing: parseECIValue is proved to decode the one-, two- and three-byte designator forms of ISO/IEC 18004 8.4.1.1, to consume exactly 8/16/24 bits, to return a value in 0..2^21-1, "
